@@ -159,10 +159,10 @@ Theorem dijkstra_model_sound_partial : forall g s fuel st, In s (nodes g) -> dij
 Proof. intros g s fuel st. apply (dijkstra_model_sound_l g s fuel st). Qed.
 Print Assumptions dijkstra_model_sound_partial.
 
-(** Kruskal as implemented (first edge per node pair only) does not return a minimum forest: finding C19-K1 *)
-Theorem kruskal_as_implemented_refuted : exists g, wf g /\ k_parallel_diffw g = true /\ ~ msf_spec g (kruskal_model g).
-Proof. exact kruskal_model_refuted_l. Qed.
-Print Assumptions kruskal_as_implemented_refuted.
+(** Kruskal before repair f6a1e05 (first edge per node pair only) did not return a minimum forest: finding C19-K1, fixed *)
+Theorem kruskal_pre_refuted : exists g, wf g /\ k_parallel_diffw g = true /\ ~ msf_spec g (kruskal_pre g).
+Proof. exact kruskal_pre_refuted_l. Qed.
+Print Assumptions kruskal_pre_refuted.
 
 (** ** non-vacuity: the checkers accept non-trivial instances, the hypotheses are satisfiable *)
 (** zero-weight cycle 1<->2, parallel edges 0->1, unreachable node 3, self-loop *)
